@@ -116,6 +116,8 @@ def peerView (wire : List (String × Int)) : OwnParams :=
   let r := recordAll (toParamList wire)
   let has (k : String) : Bool := (lookup wire k).isSome
   { r with
+    -- transport_parameters.go: a received max_idle_timeout is raised to protocol.MinRemoteIdleTimeout
+    maxIdleTimeout := if has "mit" then max r.maxIdleTimeout (Protocol.MinRemoteIdleTimeout / 1000000) else r.maxIdleTimeout
     maxUDPPayloadSize := if has "mups" then r.maxUDPPayloadSize else Protocol.MaxByteCount
     ackDelayExponent := if has "ade" then r.ackDelayExponent else Protocol.DefaultAckDelayExponent
     maxAckDelay := if has "mad" then r.maxAckDelay else Protocol.DefaultMaxAckDelay / 1000000
